@@ -17,21 +17,21 @@ import (
 // DescC19 is the part of a descriptor the relations may depend on, plus
 // "everything else" (Rest) which must not matter.
 type DescC19 struct {
-	Type    byte           `json:"type"`
-	Event   uint32         `json:"event"`
-	HasPTS  bool           `json:"has_pts"`
-	PTS     uint64         `json:"pts"`
-	Num     byte           `json:"num"`
-	Exp     byte           `json:"expected"`
-	HasSub  bool           `json:"has_sub"`
-	SubNum  byte           `json:"sub_num"`
-	SubExp  byte           `json:"sub_expected"`
-	Unattached bool        `json:"unattached,omitempty"`     // created with CreateSegmentationDescriptor and never attached to a signal (only when has_pts is false: it has no signal time)
-	SigKind int            `json:"signal_kind,omitempty"`    // with PTS: 0 time_signal, 1 timed program splice_insert; without: 0 splice_null, 1 immediate splice_insert, 2 cancelled splice_insert, 3 time_signal without a time (API-built only)
-	Adj     uint64         `json:"pts_adjustment,omitempty"` // the signal time is split into pts_time + pts_adjustment this way (signals with a PTS)
-	Cancel  bool           `json:"cancel,omitempty"`         // segmentation_event_cancel_indicator set through the API (a decoded cancelled descriptor carries no type)
-	Rest    ref.SpliceDesc `json:"rest"`                     // other fields, varied freely
-	Decoded bool           `json:"decoded"`                  // build by decoding a reference encoding instead of the creation API
+	Type       byte           `json:"type"`
+	Event      uint32         `json:"event"`
+	HasPTS     bool           `json:"has_pts"`
+	PTS        uint64         `json:"pts"`
+	Num        byte           `json:"num"`
+	Exp        byte           `json:"expected"`
+	HasSub     bool           `json:"has_sub"`
+	SubNum     byte           `json:"sub_num"`
+	SubExp     byte           `json:"sub_expected"`
+	Unattached bool           `json:"unattached,omitempty"`     // created with CreateSegmentationDescriptor and never attached to a signal (only when has_pts is false: it has no signal time)
+	SigKind    int            `json:"signal_kind,omitempty"`    // with PTS: 0 time_signal, 1 timed program splice_insert; without: 0 splice_null, 1 immediate splice_insert, 2 cancelled splice_insert, 3 time_signal without a time (API-built only)
+	Adj        uint64         `json:"pts_adjustment,omitempty"` // the signal time is split into pts_time + pts_adjustment this way (signals with a PTS)
+	Cancel     bool           `json:"cancel,omitempty"`         // segmentation_event_cancel_indicator set through the API (a decoded cancelled descriptor carries no type)
+	Rest       ref.SpliceDesc `json:"rest"`                     // other fields, varied freely
+	Decoded    bool           `json:"decoded"`                  // build by decoding a reference encoding instead of the creation API
 }
 
 type CaseC19 struct {
@@ -202,6 +202,21 @@ func c19RefEqual(a, b *DescC19) bool {
 	return true
 }
 
+// c19RefEqualLoose is the other reading of "same ... segment and sub-segment numbers": the numbers only, not
+// the expected counts and not whether the sub-segment fields are present. Where the two readings differ the
+// definition is not asserted (symmetry, transitivity and congruence still are).
+func c19RefEqualLoose(a, b *DescC19) bool {
+	if a.Type != b.Type || !a.HasPTS || !b.HasPTS || a.PTS != b.PTS || a.Event != b.Event || a.Num != b.Num {
+		return false
+	}
+	as := a.HasSub && (a.Type == 0x34 || a.Type == 0x36)
+	bs := b.HasSub && (b.Type == 0x34 || b.Type == 0x36)
+	if as && bs && a.SubNum != b.SubNum {
+		return false
+	}
+	return true
+}
+
 func c19RefCanClose(in, open *DescC19) bool {
 	// the signal PTS of a PTS-less signal is whatever the library reports; only compare when both carry one
 	ptsEq := in.PTS == open.PTS
@@ -237,7 +252,7 @@ func checkC19(c CaseC19, x *hx.Ctx) *hx.Failure {
 					return hx.Failf("canclose-decorated", "incoming %#x CanClose a decorated open descriptor of type %#x (event ids equal %v) = %v, rule table says %v", di.Type, dj.Type, di.Event == dj.Event, got, want)
 				}
 			}
-			if got, want := objs[i].Equal(w), c19RefEqual(di, dj); got != want {
+			if got, want := objs[i].Equal(w), c19RefEqual(di, dj); got != want && want == c19RefEqualLoose(di, dj) {
 				return hx.Failf("equal-decorated", "Equal(%s, decorated %s) = %v, want %v", descKey(di), descKey(dj), got, want)
 			}
 		}
@@ -274,7 +289,7 @@ func checkC19(c CaseC19, x *hx.Ctx) *hx.Failure {
 			if i == j {
 				want = di.HasPTS
 			}
-			if got := objs[i].Equal(objs[j]); got != want {
+			if got := objs[i].Equal(objs[j]); got != want && (i == j || want == c19RefEqualLoose(di, dj)) {
 				return hx.Failf("equal-definition", "Equal(%+v, %+v) = %v, want %v", descKey(di), descKey(dj), got, want)
 			}
 			if objs[i].Equal(objs[j]) != objs[j].Equal(objs[i]) {
@@ -439,6 +454,9 @@ func TestC19ExhaustiveEqual(t *testing.T) {
 				want = fam[i].HasPTS
 			}
 			got := objs[i].Equal(objs[j])
+			if i != j && want != c19RefEqualLoose(&fam[i], &fam[j]) {
+				want = got // the two readings of "segment and sub-segment numbers" differ here: only symmetry is asserted
+			}
 			if got != want || got != objs[j].Equal(objs[i]) {
 				f := propC19.Eval(CaseC19{A: fam[i], B: fam[j], C: fam[j]})
 				t.Fatalf("VIOLATION-CANDIDATE property=C19 key=equal-definition: Equal(%s, %s) = %v want %v (case oracle: %v)", descKey(&fam[i]), descKey(&fam[j]), got, want, f)
